@@ -389,7 +389,8 @@ def check(case, rec):
 def cases():
     small = vals.immutables(big=False, surrogates=False, max_leaves=4)
     nontext = st.sampled_from([["int", "5"], ["none"], ["bytes", "5155455259"], ["tuple", [["str", "QUERY"]]], ["float", "3ff0000000000000"],
-                               ["bool", True], ["fset", []]])
+                               ["bool", True], ["fset", []], ["tuple", []], ["tuple", [["str", "QUERY"], ["str", "FOO"]]],
+                               ["tuple", [["int", "1"], ["int", "2"], ["int", "3"]]], ["str", "%s%s"], ["slice", ["none"], ["none"], ["none"]]])
     bad = st.one_of(
         st.tuples(st.just("bad"), st.just("bytes"), st.binary(max_size=24).map(lambda b: b.hex())),
         st.tuples(st.just("bad"), st.just("value"), small),
@@ -533,7 +534,8 @@ def real_cases():
     bad = st.one_of(st.tuples(st.just("bad"), st.sampled_from(["wrong-magic", "unknown-command", "private-command", "wrong-argc", "no-args",
                                                                 "args-not-iterable", "aliases-not-text", "aliases-not-iterable", "truncated",
                                                                 "close-at-once", "half"]), st.none()),
-                    st.tuples(st.just("bad"), st.just("command-not-text"), st.sampled_from([["int", "5"], ["none"], ["bytes", "5155"]])),
+                    st.tuples(st.just("bad"), st.just("command-not-text"), st.sampled_from([["int", "5"], ["none"], ["bytes", "5155"], ["tuple", []],
+                                                                                              ["tuple", [["str", "QUERY"], ["str", "FOO"]]]])),
                     st.tuples(st.just("bad"), st.just("value"), small),
                     st.tuples(st.just("bad"), st.just("bytes"), st.binary(max_size=16).map(lambda b: b.hex()))).map(list)
     reg = st.tuples(st.just("reg"), st.integers(0, 2), st.lists(st.integers(0, 3), min_size=1, max_size=2)).map(list)
